@@ -6,6 +6,7 @@ import (
 	"errors"
 	"fmt"
 	"io"
+	"math/big"
 	"net"
 	"sync"
 	"time"
@@ -84,6 +85,8 @@ type Act struct {
 	Units  int      `json:"units,omitempty"`
 	N      int      `json:"n,omitempty"`
 	Cost   int64    `json:"cost,omitempty"`
+	Af     string   `json:"af,omitempty"`  // amount class ("ok" | "ovfLast" | "ovfMid" | "tooBig")
+	Raw    []string `json:"raw,omitempty"` // harness-only: the concrete amounts of an amount class (decimal hastings)
 	How    string   `json:"how,omitempty"` // harness-only: abort variant
 }
 
@@ -640,6 +643,30 @@ func (a *Adapter) deposits(deps []Dep) (out []proto4.AccountDeposit, total types
 func (a *Adapter) beginFund(act Act) error {
 	ex := a.current()
 	deps, total := a.deposits(act.Deps)
+	if act.Af != "" && act.Af != "ok" {
+		// amounts near the top of the 128-bit range; the adversarial renter signs the revision a
+		// host that sums them with wrapping arithmetic would compute
+		amts := representativeAmounts(act.Af)
+		if len(act.Raw) > 0 {
+			amts = nil
+			for _, r := range act.Raw {
+				b, ok := new(big.Int).SetString(r, 10)
+				if !ok || b.Sign() < 0 || b.Cmp(two128) >= 0 {
+					return fmt.Errorf("bad raw amount %q", r)
+				}
+				amts = append(amts, bigCur(b))
+			}
+		}
+		deps = nil
+		for i, amt := range amts {
+			name := "a1"
+			if len(act.Deps) > 0 {
+				name = act.Deps[i%len(act.Deps)].A
+			}
+			deps = append(deps, proto4.AccountDeposit{Account: a.Acc(name), Amount: amt})
+		}
+		_, total = classifyAmounts(amts, ex.RenterOutput.Value)
+	}
 	rev, _, err := proto4.ReviseForFundAccounts(ex, total)
 	if err != nil {
 		rev = ex
@@ -659,6 +686,16 @@ func (a *Adapter) beginRepl(act Act) error {
 	req := proto4.RPCReplenishAccountsRequest{ContractID: a.K.ID, Target: Units(uint64(act.Target))}
 	for _, n := range act.Accs {
 		req.Accounts = append(req.Accounts, a.Acc(n))
+	}
+	if act.Af != "" && act.Af != "ok" {
+		// a target near the top of the 128-bit range over distinct fresh accounts: the sum of the
+		// deposits overflows
+		var k int
+		req.Target, k = replenishOverflow(act.Af)
+		req.Accounts = nil
+		for i := 0; i < k; i++ {
+			req.Accounts = append(req.Accounts, a.Acc(fmt.Sprintf("ovf-%s-%d", act.Kind, i)))
+		}
 	}
 	stale := ex.RevisionNumber + 1
 	if ex.RevisionNumber > 0 {
